@@ -228,7 +228,8 @@ def _invoke(ws, crate, target, harnesses, features, no_default_features, jobs, h
 
 
 def run_group(tag, crate, harness_files, harnesses, repo="/repo", features=None, no_default_features=False,
-              jobs=8, harness_timeout=600, total_timeout=3000, extra_args=(), playback=True, log_dir=None, host=None):
+              jobs=8, harness_timeout=600, total_timeout=3000, extra_args=(), playback=True, log_dir=None, host=None,
+              contracts=True, target_tag=""):
     """run `harnesses` (names) of `crate` in parallel; failed harnesses are re-run sequentially with
     --concrete-playback=print to obtain the counterexample values.  Returns KaniGroupResult"""
     out = KaniGroupResult()
@@ -237,7 +238,7 @@ def run_group(tag, crate, harness_files, harnesses, repo="/repo", features=None,
     try:
         inject(ws, crate, harness_files, host=host)
         try:
-            out.contracts = inject_contracts(ws, crate)
+            out.contracts = inject_contracts(ws, crate) if contracts else []
         except Exception as e:  # lost anchor => undecided, never an alarm
             out.reason = "contract injection failed: %s" % e
             out.harnesses = {h: HarnessResult(h) for h in harnesses}
@@ -245,7 +246,7 @@ def run_group(tag, crate, harness_files, harnesses, repo="/repo", features=None,
                 r.reason = out.reason
             return out
         target = os.path.join(CACHE, crate + ("-nd" if no_default_features else "") +
-                              ("-" + "-".join(features) if features else ""))
+                              ("-" + "-".join(features) if features else "") + target_tag)
         os.makedirs(target, exist_ok=True)
         out.cmd, text = _invoke(ws, crate, target, harnesses, features, no_default_features, jobs, harness_timeout,
                                 total_timeout, extra_args, False)
